@@ -1,0 +1,51 @@
+//go:build verif
+
+// Contracts for the gocv verifier (comment-only file; see /verif/DESIGN.md §4).
+// C11: every access to a shard's map holds the shard lock in the right mode; each operation is
+// exact on the map as it is inside its critical section (atlock(...) = the state right after the
+// lock was taken, which is the linearisation point's pre-state); the monitor invariant bounds the
+// number of entries of a shard by its maximum.
+package concurrent_map
+
+//@ type shard
+//@   lock l protects max, m
+//@   invariant l: self.m != nil && (self.max > 0 ==> len(self.m) <= self.max)
+
+// hashing is a pure function of the key: a key always maps to the same shard
+//@ interface Hashable.Sum
+//@   pure
+
+//@ func newShard [C11]
+//@   ensures result.max == max && result.m != nil && fresh(result.m) && len(result.m) == 0
+
+//@ func (m *shard) get [C11]
+//@   requires m != nil
+//@   ensures result_1 == (key in atlock(m.m)) && (result_1 ==> result_0 == atlock(m.m[key]))
+
+//@ func (m *shard) len [C11]
+//@   requires m != nil
+//@   ensures result == atlock(len(m.m))
+
+//@ func (m *shard) del [C11]
+//@   requires m != nil
+//@   ensures !(key in m.m) && m.m == atlock(m.m)
+//@   ensures forall k int :: k != key ==> (k in m.m) == (k in atlock(m.m)) && m.m[k] == atlock(m.m[k])
+
+//@ func (m *shard) flush [C11]
+//@   requires m != nil
+//@   ensures len(m.m) == 0 && m.m != nil && (forall k int :: !(k in m.m))
+
+// set: afterwards key maps to v; no key appears that was not there; other surviving values are
+// untouched; (monitor invariant, checked at the unlock:) the shard is within its maximum.
+//@ func (m *shard) set [C11]
+//@   requires m != nil
+//@   ensures (key in m.m) && m.m[key] == v && m.m == atlock(m.m)
+//@   ensures forall k int :: k != key && (k in m.m) ==> (k in atlock(m.m)) && m.m[k] == atlock(m.m[k])
+//@   loop 0:
+//@     invariant m.m == atlock(m.m) && m.m != nil && m.max == atlock(m.max) && m.max > 0 && 0 <= len(m.m) && len(m.m) <= atlock(len(m.m))
+//@     invariant forall k int :: (k in m.m) ==> (k in atlock(m.m)) && m.m[k] == atlock(m.m[k])
+//@     invariant forall k int :: visited(0, k) ==> !(k in m.m)
+
+//@ func (m *Map) getShard [C11]
+//@   requires m != nil
+//@   ensures result != nil && result == &m.shards[key.Sum() % 64]
